@@ -522,6 +522,10 @@ fn driver(k: usize, variants: &[Vec<Field>], has_clone: bool, has_serde: bool, n
             writeln!(s, "        (\"clone_from\", {v}) => {{ let (a, b) = st.slots.split_at_mut(1); let (dst, src) = if s == 0 {{ (&mut b[0], &a[0]) }} else {{ (&mut a[0], &b[0]) }};").unwrap();
             writeln!(s, "            if let (Rec::V{v}(d), Rec::V{v}(sr)) = (dst, src) {{ d.get_mut().clone_from(sr.get()); }} else {{ panic!(\"clone_from: variants differ\") }}").unwrap();
             writeln!(s, "            st.init[1 - s] = st.init[s].clone(); }}").unwrap();
+            // clone assignment with a panic in the k-th field clone, then the target is destroyed
+            writeln!(s, "        (\"clone_from_panic\", {v}) => {{ {{ let (a, b) = st.slots.split_at_mut(1); let (dst, src) = if s == 0 {{ (&mut b[0], &a[0]) }} else {{ (&mut a[0], &b[0]) }};").unwrap();
+            writeln!(s, "            if let (Rec::V{v}(d), Rec::V{v}(sr)) = (dst, src) {{ lab_types::arm_clone_panic(op[\"k\"].as_i64().unwrap()); let _ = std::panic::catch_unwind(std::panic::AssertUnwindSafe(|| d.get_mut().clone_from(sr.get()))); lab_types::arm_clone_panic(-1); }} else {{ panic!(\"clone_from: variants differ\") }} }}").unwrap();
+            writeln!(s, "            st.slots[1 - s] = Rec::None; st.init[1 - s].clear(); }}").unwrap();
         }
         if has_serde {
             writeln!(s, "        (\"ser\", {v}) => {{ if let Rec::V{v}(p) = &st.slots[s] {{ st.enc = encode(p.get(), op[\"fmt\"].as_str().unwrap()); out(st.enc.iter().map(|x| json!(x)).collect()); }} }}").unwrap();
